@@ -132,6 +132,19 @@ ChainSelf == /\ Len(hist) < MaxDepth /\ Len(hist) >= 1
                 /\ hist' = Append(hist, [f |-> "chainself"])
              /\ UNCHANGED <<l1, bnd>>
 
+\* chain with the ORIGINAL leaf L1 again (either side): the same leaf object,
+\* and hence the same payload, is consumed twice in one tree
+ChainBase == /\ Len(hist) < MaxDepth /\ Len(hist) >= 1
+             /\ Eng(rel) = "it1" /\ Cols(rel) = BaseCols
+             /\ \E left \in BOOLEAN :
+                  LET base == Leaf1(l1, bnd)
+                      r == IF left THEN ApplyBinary(ChainOp, base, rel) ELSE ApplyBinary(ChainOp, rel, base) IN
+                  /\ ~IsErr(r)
+                  /\ rel' = r
+                  /\ ref' = IF left THEN l1 \o ref ELSE ref \o l1
+                  /\ hist' = Append(hist, [f |-> "chainbase", left |-> left])
+             /\ UNCHANGED <<l1, bnd>>
+
 Materialized == /\ Len(hist) < MaxDepth
                 /\ NMats(hist) < 2
                 /\ LET nm == IF NMats(hist) = 0 THEN "m1" ELSE "m2"
@@ -149,7 +162,7 @@ Transferred == /\ Len(hist) < MaxDepth
                     /\ hist' = Append(hist, [f |-> "xfer", dest |-> dest])
                /\ UNCHANGED <<l1, bnd, ref>>
 
-Next == Unary \/ Chain \/ ChainSelf \/ Materialized \/ Transferred
+Next == Unary \/ Chain \/ ChainSelf \/ ChainBase \/ Materialized \/ Transferred
 Spec == Init /\ [][Next]_vars
 
 (* ---------------- invariants ---------------- *)
@@ -226,7 +239,7 @@ RejectsAll ==
 
 (* ---------------- emission (Binding A) ---------------- *)
 Fired ==    \* some rewrite rule changed the naive one-node-per-call shape
-    LET n == Cardinality({i \in DOMAIN hist : hist[i].f \in {"un", "chain", "chainself", "mat", "xfer"}}) IN
+    LET n == Cardinality({i \in DOMAIN hist : hist[i].f \in {"un", "chain", "chainself", "chainbase", "mat", "xfer"}}) IN
     Cardinality({m \in Nodes(rel) : m.k # "leaf"}) # n
 
 EmitState ==
